@@ -5,7 +5,7 @@ F = "harness/C15_console.c"
 D = ["-D__NO_CTYPE"]
 STUBS_RUN = ["do_tokenize:do_tokenize_contract", "find_command:find_command_contract", "do_prompt:do_prompt_contract"]
 STUBS_EVAL = ["do_tokenize:do_tokenize_contract", "find_command:find_command_contract"]
-NAMES = "command names of 1..4 characters (any bytes); table size is the real constant 32"
+NAMES = "command names of 1..4 characters (any bytes); table size is the real constant 32, every fill 0..31 enumerated"
 EQ_LEN, TEXT_LEN = 8, 6
 
 
